@@ -11,5 +11,15 @@ MCFirst == {SeqOf(S) : S \in (SUBSET (1..5)) \ {{}}}
 MCLater(n) ==
     {s \in {SeqOf(1..n), SeqOf({1}), SeqOf({n}), SeqOf({i \in 1..n : i % 2 = 1}),
             SeqOf((1..n) \ {1}), [i \in 1..n |-> n + 1 - i], <<1, 1>>} : Len(s) >= 1}
+\* every mapping array of length 1..4 over the first four origin events
+\* (subsets, permutations, repetitions, supersets), as an explicitly mapped
+\* basin of the origin; optionally followed by one more derivation
+MCAllMaps == UNION {[1..k -> 1..4] : k \in 1..4}
+MapNext ==
+    \/ /\ Len(files) = 1
+       /\ \E sel \in MCAllMaps, own \in BOOLEAN : Derive(1, "mapped", sel, own)
+    \/ /\ Len(files) = 2
+       /\ \E how \in {"export", "mapped"} :
+             \E sel \in MCLater(Len(files[2].ev)) : Derive(2, how, sel, FALSE)
 Emit == (Len(files) >= 2) => PrintT(<<"H", ToJson(files)>>)
 =============================================================================
